@@ -108,14 +108,17 @@ def check(prop, tier, seed):
             continue
         relpath, qual = key.split("::")
         finfo = {"function": key, "cases": 0}
-        try:
-            mod = source.module(relpath, REPO)
-            node = mod.func(qual)
-            finfo["sha256"] = source.func_digest(node)
-            finfo["lines"] = [node.lineno, node.end_lineno]
-        except Exception as ex:
-            not_extracted.append({"function": key, "reason": "not found: %s" % ex})
-            continue
+        if relpath == "lemma":
+            finfo["lemma"] = True
+        else:
+            try:
+                mod = source.module(relpath, REPO)
+                node = mod.func(qual)
+                finfo["sha256"] = source.func_digest(node)
+                finfo["lines"] = [node.lineno, node.end_lineno]
+            except Exception as ex:
+                not_extracted.append({"function": key, "reason": "not found: %s" % ex})
+                continue
         n0 = len(eng.obligations)
         try:
             for i, kinds in enumerate(verify.param_cases(c)):
@@ -127,10 +130,6 @@ def check(prop, tier, seed):
             continue
         finfo["obligations"] = len(eng.obligations) - n0
         functions.append(finfo)
-    # lemmas (obligations without code)
-    if cset.lemmas:
-        from pyvc import lemmas
-        lemmas.generate(eng, cset)
     gen_s = time.time() - gen_t0
     workdir = tempfile.mkdtemp(prefix="pyvc_%s_" % prop)
     try:
